@@ -129,8 +129,8 @@ func (s *String) ReadFrom(r io.Reader) (n int64, err error) {
 		return n, errors.New("string length less than zero")
 	}
 
-	bs := make([]byte, l)
-	if _, err := io.ReadFull(r, bs); err != nil {
+	bs, err := readBytes(r, int(l))
+	if err != nil {
 		return n, err
 	}
 	n += int64(l)
@@ -573,12 +573,39 @@ func (b *ByteArray) ReadFrom(r io.Reader) (n int64, err error) {
 		return n1, errors.New("byte array length less than zero")
 	}
 	if cap(*b) < int(Len) {
-		*b = make(ByteArray, Len)
-	} else {
-		*b = (*b)[:Len]
+		bs, err := readBytes(r, int(Len))
+		*b = bs
+		return n1 + int64(len(bs)), err
 	}
+	*b = (*b)[:Len]
 	n2, err := io.ReadFull(r, *b)
 	return n1 + int64(n2), err
+}
+
+// maxPreallocBytes is the number of bytes allocated for a declared length before
+// any of the announced data has been read. Longer payloads are read in steps that
+// at most double the buffer, so that a few bytes of input declaring a length of
+// 2^31-1 fail with an EOF instead of allocating gigabytes.
+const maxPreallocBytes = 1 << 16
+
+// readBytes reads exactly n bytes from r. With an error it returns the bytes read so far.
+func readBytes(r io.Reader, n int) ([]byte, error) {
+	first := min(n, maxPreallocBytes)
+	buf := make([]byte, first)
+	for read := 0; ; {
+		nn, err := io.ReadFull(r, buf[read:])
+		if err != nil {
+			if err == io.EOF && read > 0 {
+				err = io.ErrUnexpectedEOF
+			}
+			return buf[:read+nn], err
+		}
+		if read = len(buf); read == n {
+			return buf, nil
+		}
+		more := min(n-read, read)
+		buf = append(buf, make([]byte, more)...)
+	}
 }
 
 func (u UUID) WriteTo(w io.Writer) (n int64, err error) {
